@@ -45,6 +45,9 @@ def eval_clause(it, f, ns):
         f = f.__func__
     node, *_ = function_ast(f)
     params = [a.arg for a in node.args.args]
+    if ("trace" in params or ("ghost" in params and 'ghost["trace"]' in function_ast(f)[3])) and any(isinstance(e, tuple) and e and e[0] == "loop-havoc" for e in it.ctx.trace):
+        if not getattr(it.top_contract, "trace_loops_ok", False):
+            raise Unsupported(f"clause {f.__name__} reads the effect trace after a loop whose iterations had effects (declare trace_loops_ok after checking the clause only uses `any`)")
     args = []
     for p in params:
         if p not in ns:
@@ -183,7 +186,9 @@ def run_one_path(env, con, fn, ctx):
                 if c in con.raises:
                     match = c
                     break
-            line = getattr(ctx, "cur_line", None)
+            line = getattr(ctx, "raise_line", None)
+            line = (line - first) if isinstance(line, int) else None
+            ctx.exit_rel = line
             if match is None:
                 ctx.oblige(f"{tag}/no-raise.{cls.__name__}", False, meta={"exc": cls.__name__, "line": line}, assume_after=False)
             else:
@@ -192,15 +197,17 @@ def run_one_path(env, con, fn, ctx):
                     if isinstance(cond, staticmethod):
                         cond = cond.__func__
                     rr = eval_clause(it, cond, ns_exit({"exc": exc}))
-                    ctx.oblige(f"{tag}/raises.{match.__name__}", ops.truth_term(rr), meta={"exc": cls.__name__, "line": line})
+                    ctx.oblige(f"{tag}/raises.{match.__name__}", ops.truth_term(rr), meta={"exc": cls.__name__, "line": line}, assume_after=False)
             for f in con.clause_list("exsures"):
                 rr = eval_clause(it, f, ns_exit({"exc": exc}))
-                ctx.oblige(f"{tag}/exsures.{f.__name__}", ops.truth_term(rr), meta={"exc": cls.__name__})
+                ctx.oblige(f"{tag}/exsures.{f.__name__}", ops.truth_term(rr), meta={"exc": cls.__name__}, assume_after=False)
             return ("raise", cls.__name__)
         # normal exit
+        el = getattr(ctx, "exit_line", None)
+        ctx.exit_rel = (el - first) if isinstance(el, int) else None
         for f in con.clause_list("ensures"):
             rr = eval_clause(it, f, ns_exit({"result": result}))
-            ctx.oblige(f"{tag}/ensures.{f.__name__}", ops.truth_term(rr))
+            ctx.oblige(f"{tag}/ensures.{f.__name__}", ops.truth_term(rr), assume_after=False)
         return ("return", None)
     finally:
         env.assumptions_used |= set()
